@@ -17,15 +17,19 @@ FILTERS = {"movimm": is_movimm}
 # property -> list of plans: (corpus, ctx, modes, quick sample size, thorough sample size, filter name, thorough-only)
 PLANS = {
     "C01": [("C01", "solo0,solo37", "plain", 9000, None, None, False), ("C01", "solo37", "fit", 1500, None, None, False)],
-    "C02": [(c, "solo0", "plain", 1400, None, None, False) for c in ("C02a", "C02b", "C02c", "C02d", "C02e", "C02f", "C02g", "C02h", "C02i", "C02j")],
-    "C03": [("C03", "solo0", "plain", 7000, None, None, False)],
+    "C02": [(c, "solo0", "plain", 1400, None, None, False) for c in ("C02a", "C02b", "C02c", "C02d", "C02e", "C02f", "C02g", "C02h", "C02i", "C02j")]
+           + [("C02d", "solo0,mid,last", "plain,count", 500, 3000, None, False), ("C02h", "solo37", "fit", 700, 4000, None, False), ("C02g", "solo37", "fit", 400, 2000, None, False)],
+    "C03": [("C03", "solo0", "plain", 7000, None, None, False),
+            # the same lines inside a program, in counting mode and where chunk fitting has to pad and assemble them again
+            ("C03", "solo0,mid,last", "plain,count", 700, 4000, None, False), ("C03", "solo37", "fit", 900, 5000, None, False)],
     "C04": [("C04a", "solo0", "plain", 3000, None, None, False), ("C04b", "solo0", "plain", 2500, None, None, False),
             ("C04c", "solo0", "plain", 2000, None, None, False),
             # chunk fitting assembles an instruction a second time after padding: the same forms at an offset where they do not fit the chunk
             ("C04a", "solo37", "fit", 1200, None, None, False), ("C04b", "solo37", "fit", 800, None, None, False), ("C04c", "solo37", "fit", 600, None, None, False),
             ("C04d", "solo0", "plain", 0, None, None, True), ("C04e", "solo0", "plain", 0, None, None, True),
             ("C04f", "solo0", "plain", 0, None, None, True)],
-    "C05": [("C05", "solo0,solo37", "plain", 6000, None, None, False), ("C05m", "solo0", "plain", 2500, None, None, False)],
+    "C05": [("C05", "solo0,solo37", "plain", 6000, None, None, False), ("C05m", "solo0", "plain", 2500, None, None, False),
+            ("C05", "solo0,mid,last", "plain,count", 600, 4000, None, False), ("C05", "solo37", "fit", 800, 5000, None, False)],
     "C10": [("C10x", ALLCTX, ALLMODES, None, None, None, False), ("C10a", ALLCTX, ALLMODES, 4000, None, None, False),
             ("C10b", "solo0,mid", ALLMODES, 800, None, None, False), ("C10c", "solo0,mid", ALLMODES, 800, None, None, False),
             ("C10d", "solo0,mid", ALLMODES, 800, None, None, False)],
@@ -207,7 +211,7 @@ def run(prop, tier, replay=None):
         rp = json.load(open(replay))
         plans = [("replay", ALLCTX + ",solo37", ALLMODES, None, None, None, False)]
     allrecs = {}
-    for (cname, ctx, modes, nq, nt, flt, thorough_only) in plans:
+    for pi, (cname, ctx, modes, nq, nt, flt, thorough_only) in enumerate(plans):
         if thorough_only and tier == "quick":
             exhaustive = False
             continue
@@ -220,12 +224,13 @@ def run(prop, tier, replay=None):
             n = nq if tier == "quick" else nt
             if n is not None and n < len(recs):
                 exhaustive = False
-            recs = A.sample(recs, n, A.SEED)
+            recs = A.sample(recs, n, A.SEED + 7 * pi)       # (a different sample for every plan over the same corpus)
         if not recs:
             continue
+        recs = [dict(r) for r in recs]
         for r in recs:
             r.pop("runs", None)
-            r["id"] = "%s/%s" % (cname, r["id"])
+            r["id"] = "%s.%d/%s" % (cname, pi, r["id"]) if pi else "%s/%s" % (cname, r["id"])
         events = A.run_lines(recs, ctx=ctx, modes=modes)
         f, o, j = judge(prop, events)
         failures += f
